@@ -14,10 +14,12 @@ import (
 	"github.com/brimdata/super/zson"
 )
 
-// tokLit maps a key token of the specs to ZSON ("" = the field is absent).
+// tokLit maps a key token of the specs to ZSON.  The missing key is written
+// as the value the key expression yields for an absent field, so that every
+// input row has k in column 0 (see the type-context finding in main.go).
 var tokLit = map[string]string{
 	"I1": "1", "U1": "1(uint64)", "F1": "1.", "I2": "2", "I3": "3", "S": `"a"`,
-	"MISS": "", "NI": "null(int64)", "NS": "null(string)",
+	"MISS": `error("missing")`, "NI": "null(int64)", "NS": "null(string)",
 }
 
 // litTok is the inverse, applied to zson.FormatValue of a real key value.
@@ -303,23 +305,23 @@ type outRow struct {
 
 func project(v zed.Value, withSec bool) (outRow, error) {
 	r := outRow{Raw: zson.FormatValue(v), Aggs: map[string]string{}}
-	kv := v.Deref("k")
-	if kv == nil {
+	kv, ok := fieldOf(v, "k")
+	if !ok {
 		return r, fmt.Errorf("output row without key field: %s", r.Raw)
 	}
-	tok, ok := litTok[zson.FormatValue(*kv)]
+	tok, ok := litTok[zson.FormatValue(kv)]
 	if !ok {
 		return r, fmt.Errorf("output row with unknown key %s", r.Raw)
 	}
 	r.Key.P = tok
 	if withSec {
-		jv := v.Deref("j")
-		if jv == nil || jv.IsNull() {
+		jv, ok := fieldOf(v, "j")
+		if !ok || jv.IsNull() || jv.Type() != zed.TypeInt64 {
 			return r, fmt.Errorf("output row without secondary key: %s", r.Raw)
 		}
 		r.Key.S = int(jv.Int())
 	}
-	if iv := v.Deref("ids"); iv != nil && !iv.IsNull() {
+	if iv, ok := fieldOf(v, "ids"); ok && !iv.IsNull() {
 		if at, ok := zed.TypeUnder(iv.Type()).(*zed.TypeArray); ok && at.Type == zed.TypeInt64 {
 			for it := iv.Iter(); !it.Done(); {
 				r.IDs = append(r.IDs, int(zed.NewValue(zed.TypeInt64, it.Next()).Int()))
@@ -330,13 +332,30 @@ func project(v zed.Value, withSec bool) (outRow, error) {
 	}
 	sort.Ints(r.IDs)
 	for _, n := range aggNames {
-		if f := v.Deref(n); f != nil {
-			r.Aggs[n] = canon(*f)
+		if f, ok := fieldOf(v, n); ok {
+			r.Aggs[n] = canon(f)
 		} else {
 			r.Aggs[n] = "<absent>"
 		}
 	}
 	return r, nil
+}
+
+// fieldOf returns a top-level field of a record (null fields included).
+func fieldOf(v zed.Value, name string) (zed.Value, bool) {
+	rt := zed.TypeRecordOf(v.Type())
+	if rt == nil {
+		return zed.Null, false
+	}
+	i, ok := rt.IndexOfField(name)
+	if !ok {
+		return zed.Null, false
+	}
+	it := v.Iter()
+	for ; i > 0; i-- {
+		it.Next()
+	}
+	return zed.NewValue(rt.Fields[i].Type, it.Next()), true
 }
 
 func idsKey(ids []int) string { return fmt.Sprint(ids) }
